@@ -889,6 +889,8 @@ Proof.
     cbn [diamond_calls] in Hb.
     destruct fuel as [|f]; [lia|]. cbn [has_cycle].
     replace (b =? 0) with false by lia.
+    change (N.pos (Pos.of_succ_nat (n - S k))) with (N.of_nat (S (n - S k))).
+    replace (S (n - S k)) with (n - k)%nat by lia.
     (* the two children are the same computed userset *)
     assert (Hchild : forall b', 1 + diamond_calls k <= b' ->
               has_cycle f (diamond n) (N.of_nat (n - S k)) (RComputed (N.of_nat (n - k)))
